@@ -81,6 +81,28 @@ pub fn show(op: &Op) -> String {
     }
 }
 
+impl Drop for Machine {
+    /// The synthetic objects and their `GcNode`s form `Arc` cycles (an edge list holds nodes whose callbacks capture
+    /// the edge lists), and the hook registry keeps the context alive: break both, or every history leaks its graph.
+    fn drop(&mut self) {
+        self.ctx.v_registry_clear();
+        // buffered candidates sit in the context's root list and point back at the context: drop every handle and
+        // collect, which empties the buffers (and frees everything, `drop_all_collect_frees_all`)
+        if !self.dead {
+            let _ = catch_unwind(AssertUnwindSafe(|| {
+                for (i, o) in self.objs.iter().enumerate() {
+                    for _ in 0..self.handles[i] { o.gc.dec_ref(); }
+                }
+                self.ctx.collect_cycles();
+            }));
+        }
+        for o in &self.objs {
+            o.traced.lock().unwrap().clear();
+            o.owned.lock().unwrap().clear();
+        }
+    }
+}
+
 impl Machine {
     pub fn new() -> Machine {
         verif::reset_trace_counters();
